@@ -6,6 +6,7 @@ import DaskModel.Model.LockReg
 import DaskModel.Model.Match
 import DaskModel.Model.Bytes
 import DaskModel.Model.KeySplit
+import DaskModel.Model.FormatTime
 open Dask
 
 /-! ## C17 — config store
@@ -481,9 +482,26 @@ def hQuotGeneral : Handler := handler fun args =>
     pure (.list [SExp.ofNat (centsOf Dask.Generated.ByteTables.formatDecimals (ratToDy n k)), SExp.ofNat (cents n k)])
   | _ => none
 
+/-- `(fmt-time m e)` ↦ `format_time(m · 2^e)` -/
+def hFmtTime : Handler := handler fun args =>
+  match args with
+  | [m, e] => do pure (.str (formatTime ⟨← m.toNat?, ← e.toInt?⟩))
+  | _ => none
+
+/-- `(typename module|none "name" short)` -/
+def hTypename : Handler := handler fun args =>
+  match args with
+  | [m, n, sh] => do
+    let md ← match m with
+      | .sym "none" => some none
+      | e => e.toStr?.map some
+    pure (.str (Dask.KeySplit.typenameOf md (← n.toStr?) (← sh.toBool?)))
+  | _ => none
+
 def table : List (String × Handler) :=
   [("fmt-bytes", hFmt), ("fmt-band", hBand), ("parse-bytes", hParse), ("parse-td", hParseTd), ("nat-sort", hNatSort),
-   ("float-lit", hLit), ("key-split", hKeySplit), ("quot-general", hQuotGeneral)]
+   ("float-lit", hLit), ("key-split", hKeySplit), ("quot-general", hQuotGeneral), ("fmt-time", hFmtTime),
+   ("typename", hTypename)]
 end C18
 
 def table : List (String × Handler) := C17.table ++ C53.table ++ C51.table ++ C18.table
